@@ -36,7 +36,10 @@ def concrete(kind, rnd):
     if kind == "badtext":
         return (rnd.choice(["notacolor", (300, 0, 0), "rgb(1,2", "", None, "#12", (1, 2), "#777777;", "grey ;", "rgb(119, 119, 119);",
                             "#777 !important", "white;", ("", "10", "10"), ("255", "255", " "), [1, 2, ""], ("10", "10", "10", ""),
-                            ("\t", "0", "0"), [], (None, None, None), ("1", "2")]), "#ffffff")
+                            ("\t", "0", "0"), [], (None, None, None), ("1", "2"),
+                            # sequences holding something that is no component at all - and cannot be copied, or compares by identity
+                            (apirec.Stub("nocopy"), 0, 0), [apirec.Stub("nocopy"), 1, 2], (apirec.Stub("ident"), 0, 0), [10, apirec.Stub("ident"), 10],
+                            (apirec.Stub("nocopy"), "x")]), "#ffffff")
     if kind == "badbg":
         return ("#123456", rnd.choice(["nope", (0, 0, -1), "hsl(", "##", ("255", "255", ""), [" ", 1, 1], ("", "", "")]))
     if kind == "translucent":
